@@ -40,7 +40,7 @@ from mitmproxy.test import taddons
 PID = "C39"
 LEVEL = "exploration"
 TECHNIQUE = "Hypothesis op-sequence generation against the real Save addon + files vs. a plain-Python model, checked after every step"
-RULE = ("histories of 6-24 operations over 2-5 concurrent flows of mixed kinds; non-trivial = a filter change or a stop "
+RULE = ("histories of 6-29 operations over 2-5 concurrent flows of mixed kinds; non-trivial = a filter change or a stop "
         "(file->None / done) happens while >=2 flows are in flight (started, not completed); distinct by history digest")
 ASSUMPTIONS = ["hooks are delivered in a valid per-flow order (as mitmproxy.eventsequence / the proxy layers do)",
                "save_stream_file is only toggled between unset and a path (no direct path-to-path rotation), paths contain no strftime fields",
@@ -325,7 +325,7 @@ class Harness:
                 if unordered is not None:
                     opname = "stop"
                 self.ctx.fail("%s:after-%s" % (what, opname),
-                              "after %r: file %s holds ids %r, model expects %r + any order of %r" % (op, name, [x[-14:] for x in gi], [x[-14:] for x in wi], [x[-14:] for x in ti]))
+                              "after %r: file %s holds ids %r, model expects %r + any order of %r" % (op, name, [x[:8] for x in gi], [x[:8] for x in wi], [x[:8] for x in ti]))
                 return False
             if tail:
                 # adopt the order the addon chose
